@@ -10,6 +10,7 @@ CONSTANTS
   InitAuth = {"a1", "a2", "a3"}
   MinBurn = 2
   MinMint = 2
+  MinVals <- NoMins
   MaxFee = 1
   MintAmts = {1, 3}
   PctMilli = 700
